@@ -97,6 +97,10 @@ def gen_case(rng):
     return with_twins(h)
 
 
+def _shrinker():
+    return c06.make_shrinker("C15", c06._run_one, check_case, "c15")
+
+
 def run(ctx):
     guard_map(ctx)
     cases = c06.corpus_cases("C15")
@@ -109,6 +113,7 @@ def run(ctx):
         k = min(60, n - done)
         evaluate(ctx, [gen_case(ctx.rng) for _ in range(k)])
         done += k
+    _shrinker()[2](ctx)
     dry = sum(v for k, v in ctx.histogram.items() if k.startswith("dry "))
     if ctx.evaluations > 20 and dry < 3 * ctx.evaluations:
         raise common.InfraError("degenerate distribution: %d dry runs in %d histories" % (dry, ctx.evaluations))
